@@ -16,6 +16,7 @@ from exppoly import Unsupported
 from tasks_core import dump_expr, dump_program, reset_settings, classify_exception, dump_num
 
 U_VALUES = [[1, 2, -3, Fraction(1, 2), 5, -2], [Fraction(-3, 2), 1, 2, 3, Fraction(1, 3), -1], [2, -1, 1, Fraction(2, 3), 4, 3]]
+OTHER_VALUES = [Fraction(7, 3), Fraction(-5, 2), Fraction(11, 5)]
 AUX_VALUES = [0]   # like the reference semantics: a variable never initialised holds 0
 
 
@@ -53,7 +54,9 @@ def point_subs(symbols, variables, point, pi, types=None):
             if types and name[:-1] in types and val not in types[name[:-1]]:
                 val = types[name[:-1]][0]
         else:
-            raise Unsupported(f"free symbol {name}")
+            # a symbol that is neither an initial value nor a template coefficient (e.g. an unsolved k):
+            # give it a value as well, so that a closed form depending on it is compared, not skipped
+            val = Fraction(OTHER_VALUES[pi % len(OTHER_VALUES)])
         subs[s] = sp.Rational(val.numerator, val.denominator)
         used[name] = f"{val.numerator}/{val.denominator}"
     return subs, used
